@@ -46,7 +46,8 @@ CASES += [
          old="      ::memcpy( mpBuffer.get(), data, len);\n      mWritePos = len;", new="      ::memcpy( mpBuffer.get(), data, len);\n      mWritePos = len - 1;"),
     dict(id='c19-eq-stream-compaction-always', prop='C19', file=R, expect=None,
          old="   } else if (N - mDataStart < min_length)\n   {", new="   } else if (mDataStart > 0)\n   {"),
-    dict(id='c19-eq-stream-flush-tmp', prop='C19', file=W, expect=None,
+    # (was classified as behaviour preserving until C19-O6: it loses the buffered bytes when the sink throws)
+    dict(id='c19-flush-resets-before-sink', prop='C19', file=W, expect='O6',
          old="      writeData( mpBuffer.get(), mWritePos);\n      P::flushed( mWritePos);\n      mWritePos = 0;",
          new="      const size_t  pending = mWritePos;\n      mWritePos = 0;\n      writeData( mpBuffer.get(), pending);\n      P::flushed( pending);"),
 ]
